@@ -322,6 +322,44 @@ def run(ctx: Context, rep) -> None:
            message="the description is parsed from <path>/dataset_info.json "
            "with the DatasetInfo schema")
 
+    # -- C20.persist ----------------------------------------------------------------
+    rep.rule(
+        "C20.persist",
+        "Dataset.write_config reaches safe_update_file with the dumped "
+        "description on every normal path (no 'nothing changed' shortcut: an "
+        "amended description must be saved), and safe_update_file writes "
+        "exactly the text it was given (its `info` parameter, never rebound, "
+        "is the argument of the single write call)")
+    wcf = ctx.fn("sedpack.io.dataset_writing:DatasetWriting.write_config")
+    wcfg = ctx.cfg(wcf)
+    suf = "sedpack.io.utils:safe_update_file"
+    saves = wcfg.calls(lambda c_: any(
+        t.fq == suf or suf in ctx.cg.reachable([t.fq])
+        for t in ctx.internal_targets(wcf, c_)))
+    skipped = not saves or wcfg.exit in wcfg.reachable(
+        [wcfg.entry], avoiding=saves,
+        follow=lambda a, b, lab: lab not in ("exc", "raise"))
+    rep.ob("C20.persist", not skipped, loc=wcf.loc(), where=wcf.qualname,
+           construct="every path: ... safe_update_file(info=<dump>)",
+           message="write_config may return without saving the description",
+           path=wcfg.describe_path(wcfg.path_to(wcfg.exit, avoiding=saves))
+           if skipped and saves else "")
+    sf = ctx.fn(suf)
+    writes_ = [c_ for c_ in sf.calls() if isinstance(c_.func, ast.Attribute)
+               and c_.func.attr == "write"]
+    rebinds = [n for n in sf.body_nodes() if isinstance(n, ast.Name) and
+               n.id == "info" and isinstance(n.ctx, (ast.Store, ast.Del))]
+    ok_w = len(writes_) == 1 and len(writes_[0].args) == 1 and isinstance(
+        writes_[0].args[0], ast.Name) and writes_[0].args[0].id == "info" \
+        and not rebinds and "info" in sf.params()
+    rep.ob("C20.persist", ok_w, loc=sf.loc(writes_[0]) if writes_ else sf.loc(),
+           where=sf.qualname,
+           construct=(short(writes_[0], 50) if writes_ else "<no write>") + (
+               f"; info rebound at L{rebinds[0].lineno}" if rebinds else ""),
+           message="the file receives exactly the text handed to "
+           "safe_update_file (a normalisation of the text makes the reopened "
+           "description differ from the one the writer holds)")
+
     # -- C20.encoding ---------------------------------------------------------------
     rep.rule(
         "C20.encoding",
